@@ -60,6 +60,9 @@ func relayFeatures() []feature {
 	hdr("odd-case", [2]string{"x-OdD-cAsE", "v1"})
 	hdr("authorization", [2]string{"Authorization", "Bearer tok"})
 	hdr("connection-nominated", [2]string{"Connection", "close, X-Hop"}, [2]string{"X-Hop", "1"})
+	// the token in Connection is spelled as the peer likes (field names are case-insensitive)
+	hdr("connection-nominated-lowercase", [2]string{"Connection", "x-low-hop"}, [2]string{"x-low-hop", "1"})
+	hdr("connection-nominated-uppercase", [2]string{"Connection", "X-UP-HOP"}, [2]string{"X-Up-Hop", "1"})
 	hdr("keep-alive", [2]string{"Keep-Alive", "timeout=5"})
 	hdr("te", [2]string{"TE", "trailers"})
 	hdr("upgrade", [2]string{"Upgrade", "h2c"})
@@ -107,6 +110,7 @@ func relayFeatures() []feature {
 	rhdr("link-x2", [2]string{"Link", "</a>; rel=prev"}, [2]string{"Link", "</b>; rel=next"})
 	rhdr("vary-x2", [2]string{"Vary", "Accept"}, [2]string{"Vary", "Accept-Language"})
 	rhdr("connection-nominated", [2]string{"Connection", "X-Resp-Hop"}, [2]string{"X-Resp-Hop", "v"})
+	rhdr("connection-nominated-lowercase", [2]string{"Connection", "x-resp-low"}, [2]string{"X-Resp-Low", "v"})
 	rhdr("keep-alive", [2]string{"Keep-Alive", "timeout=9"})
 	rhdr("proxy-authenticate", [2]string{"Proxy-Authenticate", "Basic realm=x"})
 	rhdr("custom", [2]string{"X-Custom-Thing", "some value"}, [2]string{"Content-Language", "da"})
